@@ -179,6 +179,8 @@ func init() {
 		},
 		"internal/bytealg.Compare":         intrCompareBytes,
 		"bytes.Compare":                    intrCompareBytes,
+		"internal/bytealg.CompareString":   intrCompareBytes,
+		"strings.Compare":                  intrCompareBytes,
 		"internal/bytealg.Equal":           intrEqualBytes,
 		"internal/bytealg.IndexByte":       intrIndexByte,
 		"internal/bytealg.IndexByteString": intrIndexByte,
